@@ -895,23 +895,52 @@ def window_rule(R, lib, zs):
         if i >= 0 and isinstance(args.defaults[i], ast.Constant):
             default = args.defaults[i].value
     R.instance('R3', 'ZoneSpecifier.__init__:viewing_months', ctor.loc, 'default %r' % default)
+    # the window handed to _find_matches() on the path taken for the default viewing_months: read off the path summary
+    # (small private helpers of the class are summarised in place, so the arms may live in a helper)
+    from .gnf import eval_formula, arith_assign, poly_leaves
     pw = None
-    for n in ast.walk(pf.node):
-        if isinstance(n, ast.If) and isinstance(n.test, ast.Compare) and 'viewing_months' in ast.unparse(n.test.left) \
-                and isinstance(n.test.ops[0], ast.Eq) and isinstance(n.test.comparators[0], ast.Constant) and n.test.comparators[0].value == default:
-            got = {}
-            for st in n.body:
-                if isinstance(st, ast.Assign) and isinstance(st.targets[0], ast.Name) and isinstance(st.value, ast.Call) and len(st.value.args) == 2:
-                    y, m = st.value.args
-                    off = None
-                    if isinstance(y, ast.Name) and y.id == 'year':
-                        off = 0
-                    elif isinstance(y, ast.BinOp) and isinstance(y.left, ast.Name) and y.left.id == 'year' and isinstance(y.right, ast.Constant):
-                        off = y.right.value if isinstance(y.op, ast.Add) else -y.right.value if isinstance(y.op, ast.Sub) else None
-                    if off is not None and isinstance(m, ast.Constant):
-                        got[st.targets[0].id] = (off, m.value)
-            if 'start_ym' in got and 'until_ym' in got:
-                pw = [got['start_ym'], got['until_ym']]
+    sxp = SymExec(lang='py')
+
+    def py_inliner(name, nargs):
+        g_ = zs.funcs.get(name)
+        if g_ is None or not name.startswith('ZoneSpecifier._') or name.endswith(('_find_matches', '_find_transitions')):
+            return None
+        ss = list(walk_stmts(g_.body))
+        return g_ if len(ss) <= 30 and not any(x.k == 'loop' for x in ss) else None
+    sxp.inliner = py_inliner
+    try:
+        sp_ = sxp.run(pf.name, pf.body, {})
+    except AnalysisError:
+        sp_ = None
+    if sp_ is not None:
+        base = arith_assign({'self.viewing_months': default, 'self.year': -1, 'year': 2000, 'self.debug': 0})
+
+        def asg(a_):
+            v_ = base(a_)
+            return 0 if v_ is None else v_
+        yr = Poly.atom(('sym', 'year'))
+        for g_, kind, res, eff in sp_.paths:
+            try:
+                if not eval_formula(g_, asg):
+                    continue
+            except (KeyError, TypeError):
+                continue
+            for _t, v_ in eff:
+                for a_ in poly_leaves(_P(v_), kinds=('fn',)):
+                    if a_[1].endswith('_find_matches') and len(a_[2]) >= 2:
+                        win = []
+                        for k_ in a_[2][-2:]:
+                            t_ = _atom(_P(k_))
+                            if t_ is None or t_[0] not in ('fn', 'init') or len(t_[2]) != 2:
+                                win = None
+                                break
+                            d_, m_ = _P(t_[2][0]) - yr, _P(t_[2][1])
+                            if not (d_.is_const() and m_.is_const()):
+                                win = None
+                                break
+                            win.append((d_.const_value(), m_.const_value()))
+                        if win:
+                            pw = win
     R.instance('R3', 'ZoneSpecifier.init_for_year:window', pf.loc, 'window %r' % (pw,))
     if pw is None:
         R.violation('R3', c, pf.loc, 'init_for_year has no arm for the default viewing_months=%r that sets start_ym and until_ym from year' % default)
